@@ -415,3 +415,21 @@ M("c04-work-timestamp", "C04", "R04.2", DT, "        return self.height  # type:
 M("c04-always-switch", "C04", "R04.1", CS, "            current_chain_hash = self.current_chain_hash  # a fork, but the most recently added block is non-current", "            current_chain_hash = block_hash")
 M("c04-head-reader", "C04", "R04.5", CS, "        return self.block_by_height_by_hash[self.current_chain_hash]\n\n    @property", "        return self.block_by_height_by_hash[max(self.heads)]\n\n    @property")
 M("c04-tip-del-unconditional-wrong-key", "C04", "R04.3", CS, "            mutable_heads[block_hash] = block\n", "            mutable_heads[block.previous_block_hash] = block\n")
+
+# ----------------------------------------------------------------------------------------------- C11
+M("c11-peek-data", "C11", ["P1", "P2"], RP, "        if not self.magic_read and len(self.buffer) >= 4:\n            magic = self.buffer[:4]", "        if not self.magic_read and len(self.buffer) >= 4 and data[:4] != b'':\n            magic = self.buffer[:4]")
+M("c11-gt-4", "C11", ["P3", "P4"], RP, "        if self.len is None and len(self.buffer) >= 4:", "        if self.len is None and len(self.buffer) > 4:")
+M("c11-guard4-slice3", "C11", "P3", RP, "            self.buffer = self.buffer[4:]\n\n        if self.len is None", "            self.buffer = self.buffer[3:]\n\n        if self.len is None")
+M("c11-no-reentry", "C11", "P5", RP, "            self.receive(b\"\")  # recurse to repeat (multiple messages could be received in a single socket read)\n", "")
+M("c11-size-check-late", "C11", "P7", RP,
+  "            if self.len > MAX_MESSAGE_SIZE:  # type: ignore\n                raise Exception(\"len > MAX_MESSAGE_SIZE\")\n\n            self.buffer = self.buffer[4:]\n\n        if self.len is not None and self.len <= len(self.buffer):\n",
+  "            self.buffer = self.buffer[4:]\n\n        if self.len is not None and self.len <= len(self.buffer):\n            if self.len > MAX_MESSAGE_SIZE:  # type: ignore\n                raise Exception(\"len > MAX_MESSAGE_SIZE\")\n")
+M("c11-eq-len", "C11", ["P4", "P3"], RP, "        if self.len is not None and self.len <= len(self.buffer):", "        if self.len is not None and self.len == len(self.buffer):")
+M("c11-body-lt", "C11", ["P3", "P4"], RP, "        if self.len is not None and self.len <= len(self.buffer):", "        if self.len is not None and self.len < len(self.buffer):")
+M("c11-no-magic-check", "C11", "P7", RP, "            if magic != MAGIC:\n                raise Exception(\"Insufficient magic\")\n            else:\n                self.magic_read = True\n", "            self.magic_read = True\n")
+M("c11-no-magic-reset", "C11", ["P5", "P6"], RP, "            self.magic_read = False\n            self.len = None\n", "            self.len = None\n")
+M("c11-dispatch-whole-buffer", "C11", ["P5", "P3"], RP, "            self.handle_message_data(self.buffer[:self.len])", "            self.handle_message_data(self.buffer)")
+M("c11-max-size-64", "C11", "P7", NP, "MAX_MESSAGE_SIZE = 32 * 1024 * 1024", "MAX_MESSAGE_SIZE = 64 * 1024 * 1024")
+M("c11-replace-buffer", "C11", "P1", RP, "        self.buffer += data\n", "        self.buffer = data if not self.buffer else self.buffer + data\n")
+M("c11-len-little-endian", "C11", "P3", RP, "            (self.len,) = struct.unpack(b\">I\", self.buffer[:4])", "            (self.len,) = struct.unpack(b\"<I\", self.buffer[:4])")
+M("c11-stage-order", "C11", ["P6", "P3", "P7"], RP, "        if self.len is None and len(self.buffer) >= 4:\n            (self.len,) = struct.unpack(b\">I\", self.buffer[:4])", "        if self.len is None and self.magic_read and len(self.buffer) >= 4 and len(self.buffer) < 4096:\n            (self.len,) = struct.unpack(b\">I\", self.buffer[:4])")
